@@ -361,8 +361,60 @@ def gen_violation_after_close(tier, seed):
     return cases
 
 
+def nested_header_frame(depth):
+    """A content header whose `headers` table holds one field array nested `depth` levels deep."""
+    import struct
+    v = b""
+    for _ in range(depth):
+        v = b"A" + struct.pack(">I", len(v)) + v
+    entry = b"\x01h" + v
+    table = struct.pack(">I", len(entry)) + entry
+    payload = struct.pack(">HHQH", 60, 0, 0, 0x2000) + table
+    return amqp.frame(2, 1, payload)
+
+
+def gen_nested(tier, seed):
+    cases = []
+    for d in [50, 100, 250] + ([] if tier == "quick" else [400]) + [5000]:
+        c = Case("n%d" % d, ["run 0 0 chatty 900 tail=%s,0" % nested_header_frame(d).hex()], {"keep_prefix": 0})
+        c.meta["depth"] = d
+        cases.append(c)
+    return cases
+
+
+def nested_monitor(case, il, sl):
+    lines = [l for l in il if l and not l.startswith("#")]
+    d = case.meta["depth"]
+    if any("ABORT" in l or "PANIC" in l for l in lines) or not any(l.startswith("close") for l in lines):
+        return ("a syntactically valid content header whose headers nest %d field arrays (%d bytes) took the process down: %s" % (d, len(nested_header_frame(d)), [l[:120] for l in lines][-2:]),
+                "d20-deep-nesting-stack-overflow" if d >= 1000 else "c07-nesting-crash")
+    return None
+
+
+def gen_absurd_long(tier, seed):
+    """An absurd announced body size AND more than 1 MiB of body frames really sent for it."""
+    rng = Rng(seed + 7272)
+    cases = []
+    for k, size in enumerate([2 ** 64 - 1, 2 ** 63 - 1, 2 ** 40]):
+        g = Gen(rng, chmax=2, bound=4, via_stream=0.0)
+        h1 = g.open_channel(1); g.bind_opened(h1, 1)
+        cl = g.consume(h1, "t1")
+        g.feed([mg.deliver(1, "t1", 1, False, "", "k"), mg.header(1, size)], direct=True)
+        for j in range(9 if tier == "quick" else 17):
+            g.feed([mg.body(1, bytes([65 + j]) * 131064)], direct=True)
+        g.feed([mg.heartbeat()], direct=True)
+        g.op("dump")
+        g.finish()
+        cases.append(g.case("q%d" % k))
+    return cases
+
+
 def suites(tier, seed):
     return [
+        Suite("nested-headers-e2e", "hbe2e", lambda: gen_nested(tier, seed), monitor=nested_monitor, nontrivial=lambda c, il: True, compare=False, shrink=False, timeout=120,
+              rule="real connection and I/O thread: a syntactically valid content header whose `headers` table nests 50 / 100 / 250 (thorough: 400) field arrays arrives right behind OpenOk: the frame is parsed on the I/O thread without taking the process down (it then ends the connection as a frame for a channel that is not open). Depth 5000 (a 25 KB frame) is open known finding D20: the dependency's recursive parser overflows the I/O thread's 2 MiB stack"),
+        Suite("absurd-size-long-body", "machine", lambda: gen_absurd_long(tier, seed), monitor=monitor, nontrivial=lambda c, il: True, canon=mg.canon_nondet, shrink=False, timeout=600,
+              rule="a delivery announced with 2^64-1 / 2^63-1 / 2^40 bytes followed by 9 (thorough: 17) full body frames of 131 064 bytes - more than 1 MiB really arrives for it: no panic, no allocation sized by the announcement"),
         Suite("violation-after-own-close", "machine", lambda: gen_violation_after_close(tier, seed), monitor=monitor, nontrivial=lambda c, il: True, canon=mg.canon_nondet, candidate_ok=mg.candidate_ok, exhaustive=True,
               rule="the client's own Connection.Close queued and flushed completely / up to its 5th byte / not at all, THEN a violation from the server (client-only method, unimplemented method on a channel and on channel 0, content header / body on channel 0, connection-class method on a channel), then CloseOk / nothing / EOF: the violation is still a client exception - the loop ends with ClientException, nothing further is written, every caller and consumer is released"),
         Suite("violations-random", "machine", lambda: gen_random(tier, seed), monitor=monitor, nontrivial=nontrivial, canon=mg.canon_nondet, candidate_ok=mg.candidate_ok,
